@@ -23,10 +23,24 @@ LEVEL_TEXT = ("Proof: filtering by any list of statements equals one pass keepin
               "stage of CatalogForecast.__next__ (filter, apply_mct, filter_spatial) is one pass with the conjunction of the three "
               "predicates. NaN and infinite values are in the model (IEEE comparison): a NaN attribute satisfies no statement, a "
               "statement and its complement do not cover such rows, and on finite catalogs the extended filter is the finite one. "
-              "The spatial filter on quadtree regions keeps exactly the events inside a half-open tile.")
-LEVEL_NOTE = ("Statement text parsing (str.split, float(text), datetime.strptime) is not modelled; the harness writes thresholds with "
-              "repr(float) so the parsed threshold is the intended double, and passes the parsed civil date fields to the model, "
-              "which computes the epoch millisecond itself. The region lookup inside filter_spatial is the exact half-open cell "
+              "The spatial filter on quadtree regions keeps exactly the events inside a half-open tile. "
+              "Round 4: the statement TEXT is inside the model (Model/FilterText.lean): str.split(' '), the column and operator "
+              "lookups, float(value) incl. nan / inf words, digit groups, blanks and overflow, strptime_to_utc_epoch with its format "
+              "selection, CPython's field grammar and the discarded UTC offset. Proved for every text: every statement "
+              "'<column> <op> <value text>' over the five columns and operators reads as (column, operator, float(value text)); a "
+              "datetime statement and the origin-time statement written for the same millisecond are the same statement; a "
+              "statement is read only with exactly three / four single-space tokens; filtering by a list of statement strings = "
+              "read all (first failure raises, rows untouched) then one pass with the conjunction, independent of the order and "
+              "grouping of the strings. The int64 origin-time column compared with a float threshold is modelled as numpy does it "
+              "(conversion to float64) and proved to be the exact comparison for every instant datetime can represent (sharp: "
+              "differs at 2^53+1 ms).")
+LEVEL_NOTE = ("Statement text (round 4): the model reads the characters itself; texts are ASCII (Unicode digits / blanks that float() and "
+              "re also accept are not modelled, never generated). The history / metamorphic / mct generators of earlier rounds still "
+              "hand parsed statements to the model (thresholds written with repr, civil date fields); c04_text hands over the raw "
+              "strings. Texts that are not statements (doubled space, unknown operator / column, a value float() rejects, an "
+              "impossible date) are outside the property: only the agreement model-raises <=> code-raises is recorded. A datetime "
+              "text with a UTC offset other than +00:00 is parsed and the offset discarded by the code (W-C04-4, awaiting a "
+              "decision, not generated). The region lookup inside filter_spatial is the exact half-open cell "
               "test; events in the documented round-off band just below a cell edge are excluded from the comparison (C01/C02). "
               "The two transcendental floats of apply_mct (10**x for t_crit, log10 for the completeness magnitude) are inputs of the "
               "model, computed by the harness with the code's formulas; magnitudes within 1e-9 of the completeness magnitude are not "
@@ -56,12 +70,22 @@ THEOREMS = ["CatFilter.holds_iff", "CatFilter.holds_at_threshold", "CatFilter.ho
             "CatFilter.holdsF_nan_attr", "CatFilter.holdsF_nan_threshold", "CatFilter.filterF_eq", "CatFilter.filterF_mem_iff",
             "CatFilter.nan_row_removed", "CatFilter.holdsF_compl", "CatFilter.compl_both_false_on_nan", "CatFilter.holdsF_inf_attr",
             "CatFilter.filterF_perm", "CatFilter.filterF_append", "CatFilter.filterF_idem", "CatFilter.holdsF_toF",
-            "CatFilter.filterF_toF"]
+            "CatFilter.filterF_toF",
+            # round 4: the statement text (Properties/C04_Text.lean), the int64 column in a float comparison (C04_Int64.lean)
+            "CatFilter.splitSpace_join", "CatFilter.splitSpace_double", "CatFilter.opOfSym_some_iff", "CatFilter.attrOfName_some_iff",
+            "CatFilter.parse_render_num", "CatFilter.parse_render_badfloat", "CatFilter.parse_render_datetime",
+            "CatFilter.datetime_text_eq_origin_text", "CatFilter.parse_ok_shape", "CatFilter.parse_token_count",
+            "CatFilter.parse_double_space", "CatFilter.filterTexts_eq", "CatFilter.filterTexts_ok", "CatFilter.filterTexts_error",
+            "CatFilter.filterTexts_append", "CatFilter.filterTexts_perm_ok", "CatFilter.finding_tz_offset_discarded",
+            "CatFilter.holdsCode_eq_holds", "CatFilter.datetime_range_exact", "CatFilter.filterCode_eq_filter",
+            "CatFilter.int64_beyond_2p53_differs", "C04Tables.operators_sound", "C04Tables.tags_sem"]
 TRUSTED = ["Lean 4.33 kernel", "axioms: propext, Classical.choice, Quot.sound at most",
            "numpy boolean-mask indexing keeps the rows with a true mask, in order (modelled as List.filter)",
-           "numpy compares the int64 origin_time column with a float threshold exactly for |t| < 2^53",
-           "Python str.split / float(text) / datetime.strptime parse the statement text to the intended operator, double and "
-           "civil date (thresholds are written with repr(float); checked: float(repr(x)) == x on every generated threshold)",
+           "numpy converts the int64 origin_time column to float64 (round to nearest even) for the comparison with a Python float "
+           "(NEP 50); proved exact on datetime's range",
+           "CPython's float(str) and _strptime on ASCII text are what Model/DecimalText.lean / FilterText.lean transcribe "
+           "(validated on every run: c04_float / c04_strp against float() and strptime_to_utc_epoch on every generated token, "
+           "incl. ties between neighbouring doubles, overflow, denormals); Soft64.fl64 is binary64 rounding",
            "region cell lookup (bin1d_vec, cleaner_range) is the subject of C01/C02; here only its half-open result is used",
            "apply_mct: t_crit_epoch and the per-event decision `mw < m_main - 4.5 - 0.75*log10(days)` are computed by the harness "
            "(same formulas, float64) and handed to the model; numpy.log10(0) = -inf (an event at the mainshock instant is removed)",
@@ -86,7 +110,18 @@ RULE = ("histories of 1..6 calls (filter with string / list / tuple / None state
         "region object (Cartesian or quadtree) with filter / filter() / filter_spatial / apply_mct in both in_place modes and "
         "writes of the caller into an event array in between; catalogs from structured arrays in native and non-native byte "
         "order; catalogs of 65537..131079 events; empty catalogs through apply_mct and the forecast's filter stage. The class in "
-        "c04_mct.AWAITING_DECISION (NaN coordinates with a Cartesian region in filter_spatial) is not generated.")
+        "c04_mct.AWAITING_DECISION (NaN coordinates with a Cartesian region in filter_spatial) is not generated. "
+        "Round 4 (c04_text): 1-3 statement STRINGS per case handed to the model as characters: value texts as repr / %.17e / %.17g "
+        "/ %.16E / %.20e, the exact decimal expansion of the double, the exact midpoint of two neighbouring doubles (tie, just "
+        "above, just below), short decimals ('5', '5.', '.5'), digit groups (1_246_406), leading zeros, explicit '+', exponent "
+        "forms (e / E, signed, zero-padded), overflow / underflow / denormal literals, nan / inf / infinity in any case and sign, "
+        "blanks other than the space around the value; datetime texts with padded / unpadded fields, 0-6 fraction digits, "
+        "+00:00 suffix, a tab after the blank; call forms string-by-string / list / tuple / statements= keyword / numpy.str_ / "
+        "positional in_place / stored filters + filter() / load_catalog(apply_filters=True) / CatalogForecast.__next__; catalogs "
+        "from lists and native / big-endian structured arrays, NaN / inf attribute values, instants at both ends of datetime's "
+        "range. Oracle: what each text denotes (exact Fraction rounded once by integer division; integer calendar arithmetic). "
+        "30 % of the cases add a text that is not a statement (12 malformation kinds): recorded only. The class in "
+        "c04_text.AWAITING_DECISION (datetime text with a non-zero UTC offset) is not generated.")
 
 ATTRS = [("origin_time", "t"), ("latitude", "lat"), ("longitude", "lon"), ("depth", "dep"), ("magnitude", "mag")]
 OPS = [(">", "gt"), ("<", "lt"), (">=", "ge"), ("<=", "le"), ("==", "eq")]
@@ -388,7 +423,6 @@ def py_stmts(sts, form):
 @_guarded
 def run_history(run, drv, pending, case):
     from csep.core.catalogs import CSEPCatalog
-    from csep.core.exceptions import CSEPCatalogException
     rows0 = [tuple(r) for r in case["events"]]
     region_cache = {}
 
@@ -415,6 +449,16 @@ def run_history(run, drv, pending, case):
     for ci, call in enumerate(case["calls"]):
         tg = call["target"] % len(objs)
         tobj, tst = objs[tg], state[tg]
+        # Which statements / region an object has STORED is fixed by the property only where the caller put them there
+        # (constructor, an in-place call).  What a not-in-place call leaves stored on the original (`self.filters = statements`
+        # happens in both modes today) and what the new instance carries (filter_spatial builds it without filters) is incidental:
+        # calls that would read such a stored value (`filter()` / `filter_spatial()` without argument) are not made.
+        if call["kind"] == "filter" and call["form"] == "none" and not tst.get("fk", True):
+            run.count("skipped:stored-filters-not-fixed-by-the-property")
+            continue
+        if call["kind"] == "spatial" and call["region"] is None and not tst.get("rk", True):
+            run.count("skipped:stored-region-not-fixed-by-the-property")
+            continue
         before = [list(s) for s in snaps]
         exc = None
         try:
@@ -423,11 +467,9 @@ def run_history(run, drv, pending, case):
             else:
                 reg = call["region"]
                 res = tobj.filter_spatial(region_obj(reg) if reg is not None else None, in_place=call["in_place"])
-        except CSEPCatalogException:
-            exc = "CSEPCatalogException"
-        except Exception as e:
-            run.oracle_failure(case, f"call {ci} raised {type(e).__name__}: {e}")
-            return
+        except Exception as e:          # which exception class rejects a call is not part of the property
+            exc = type(e).__name__
+            exc_text = f"{type(e).__name__}: {e}"
         # ---- direct oracle
         if call["kind"] == "filter":
             sts = call["stmts"] if call["form"] != "none" else (tst["filters"] or None)
@@ -468,18 +510,29 @@ def run_history(run, drv, pending, case):
             line_calls.append(f"s:{tg}:{int(call['in_place'])}:{enc_region(call['region'])}")
             run.count("form:spatial")
         run.count("in_place" if call["in_place"] else "new_instance")
-        if expect_exc != (exc is not None):
-            run.oracle_failure(case, f"call {ci}: exception {exc!r} but expected_exception={expect_exc}")
+        if exc is not None and not expect_exc:
+            run.oracle_failure(case, f"call {ci} raised {exc_text} although there are statements / a region to filter by")
             return
-        flags.append("0" if exc else "1")
-        if exc:
-            run.count("exception")
-            # nothing may have changed
+        if expect_exc and exc is None:
+            # nothing to filter by (no statements given or stored / no region given or bound) and the call returned instead of
+            # raising: the property only speaks about the statements that ARE given; with none, every row satisfies them.
+            # Accepted iff no row of any object changed and the result holds the target's rows; the history ends before this call.
             now = [snapshot(o) for o in objs]
-            if now != before:
-                run.oracle_failure(case, f"call {ci} raised but changed a catalog")
+            if now != before or snapshot(res) != before[tg]:
+                run.oracle_failure(case, f"call {ci}: nothing to filter by, the call did not raise and did not keep every row")
                 return
-            continue
+            run.count("nothing-to-filter-by:tolerated")
+            line_calls.pop()
+            snaps = before
+            break
+        if exc:
+            # after an exception raised by the call itself the objects are unconstrained (the property promises nothing
+            # there): the history ends here; the model is compared on the state BEFORE this call and on the raised flag
+            flags.append("0")
+            run.count("exception")
+            snaps = before
+            break
+        flags.append("1")
         is_new = all(res is not o for o in objs)
         if call["in_place"] and res is not tobj:
             run.oracle_failure(case, f"call {ci}: in_place=True did not return the catalog itself")
@@ -510,11 +563,23 @@ def run_history(run, drv, pending, case):
         # oracle state update (uses the implementation's rows for band events so later calls stay comparable)
         if call["kind"] == "filter":
             newf = list(sts)
+            explicit = call["form"] != "none"
             tst["filters"] = newf
-            state[ri] = dict(rows=got, filters=newf, region=tst["region"])
+            if explicit:
+                tst["fk"] = bool(call["in_place"])     # in place: stored by this call; not in place: incidental on the original
+            if call["in_place"]:
+                state[ri] = dict(tst, rows=got)
+            else:
+                state[ri] = dict(rows=got, filters=newf, region=tst["region"], fk=False, rk=False)
         else:
+            explicit = call["region"] is not None
             tst["region"] = reg
-            state[ri] = dict(rows=got, filters=(tst["filters"] if call["in_place"] else []), region=reg)
+            if explicit:
+                tst["rk"] = bool(call["in_place"])
+            if call["in_place"]:
+                state[ri] = dict(tst, rows=got)
+            else:
+                state[ri] = dict(rows=got, filters=[], region=reg, fk=False, rk=False)
     # ---- correspondence with the Lean model: flags and ids of every object after the whole history
     line = " ".join(["c04_hist", enc_events(rows0), enc_stmts(case["filters0"]), enc_region(case["region0"])] + line_calls)
     i = drv.ask(line)
@@ -603,7 +668,6 @@ def metamorphic(run, rng):
 def load_case(run, drv, pending_load, rng, tmpdir):
     import csep
     from csep.core.catalogs import CSEPCatalog
-    from csep.core.exceptions import CSEPCatalogException
     n = rng.choice([0, 1, 4, 10, 30])
     evs = gen_events(rng, n)
     reg = None
@@ -629,19 +693,48 @@ def load_case(run, drv, pending_load, rng, tmpdir):
         kw["filters"] = py_stmts(sts, form)
     if reg is not None:
         kw["region"] = build_region(reg)
-    case = dict(kind="load", events=[list(r) for r in rows], stmts=sts, region=reg, via_file=via_file)
+    # the same `filter().filter_spatial()` / `except: filter()` tail is repeated in csep.query_comcat and csep.query_bsi
+    # (csep/__init__.py:236, :295): reached with the web request replaced (a private reader helper; if it is not there the
+    # entry point is skipped and load_catalog carries the clause)
+    entry = "load_catalog"
+    if not via_file and rng.random() < 0.3:
+        entry = rng.choice(["query_comcat", "query_bsi"])
+        import csep.utils.readers as _rd
+        helper = "_" + entry
+        if not (hasattr(_rd, helper) and hasattr(csep, entry)):
+            run.count("helper-missing:" + helper)
+            note = f"csep.utils.readers.{helper} / csep.{entry} not present in the tree under test: entry point not driven"
+            if note not in run.assumptions:
+                run.assumptions.append(note)
+            entry = "load_catalog"
+    case = dict(kind="load", events=[list(r) for r in rows], stmts=sts, region=reg, via_file=via_file, entry=entry)
     try:
-        cat = csep.load_catalog(fn, apply_filters=True, **loader_kw, **kw)
+        if entry == "load_catalog":
+            cat = csep.load_catalog(fn, apply_filters=True, **loader_kw, **kw)
+        else:
+            import contextlib
+            import io
+            import csep.utils.readers as _rd
+            saved = getattr(_rd, "_" + entry)
+            setattr(_rd, "_" + entry, lambda **_kw: list(evs))
+            try:
+                with contextlib.redirect_stdout(io.StringIO()):
+                    cat = getattr(csep, entry)(datetime.datetime(2000, 1, 1), datetime.datetime(2001, 1, 1), verbose=False,
+                                               apply_filters=True, **kw)
+            finally:
+                setattr(_rd, "_" + entry, saved)
+            run.count("load:" + entry)
         got = snapshot_str_ids(cat) if via_file else snapshot(cat)
         exc = False
-    except CSEPCatalogException:
+    except Exception as e:              # which exception class rejects the call is not part of the property
         got, exc = None, True
-    except Exception as e:
-        run.oracle_failure(case, f"load_catalog raised {type(e).__name__}: {e}")
-        return
-    if exc != (not sts):
-        run.oracle_failure(case, f"load_catalog(apply_filters=True): exception={exc} with {len(sts)} filters")
-        return
+        if sts:
+            run.oracle_failure(case, f"load_catalog raised {type(e).__name__}: {e} with {len(sts)} filters")
+            return
+    if not sts and not exc:
+        # apply_filters=True without any statement: the code raises; a version that filters by what IS there (the region,
+        # if any) is acceptable too — checked below against the oracle with no statements; the model (which raises) is not asked
+        run.count("load:no-statements-tolerated")
     run.count("load:file" if via_file else "load:loader")
     if exc:
         run.count("load:exception")
@@ -657,8 +750,9 @@ def load_case(run, drv, pending_load, rng, tmpdir):
     if [r for r in got if r[0] not in band] != [r for r in expected if r[0] not in band]:
         run.oracle_failure(case, f"load_catalog(apply_filters=True): ids {[r[0] for r in got]} expected {[r[0] for r in expected]}")
         return
-    i = drv.ask(" ".join(["c04_load", enc_events(rows), enc_stmts(sts), enc_region(reg)]))
-    pending_load.append((case, i, ",".join(str(r[0]) for r in got if r[0] not in band) or "-", sorted(band)))
+    if sts:
+        i = drv.ask(" ".join(["c04_load", enc_events(rows), enc_stmts(sts), enc_region(reg)]))
+        pending_load.append((case, i, ",".join(str(r[0]) for r in got if r[0] not in band) or "-", sorted(band)))
     run.case(dict(kind="load", n=n, filters=[s["text"] for s in sts][:3]),
              ("load", tuple(rows), tuple(s["text"] for s in sts)) if 0 < len(expected) < len(rows) else None)
 
@@ -737,10 +831,17 @@ def run(run, rng, tier):
     # apply_mct, CatalogForecast.__next__ filter stage, update_stats / no-shared-rows extras
     from . import c04_mct
     c04_mct.run_all(run, rng, tier, Driver)
+    # round 4: the statement text (split, lookups, float(), strptime) read by the Lean model from the characters
+    from . import c04_text
+    c04_text.run_all(run, rng, tier, Driver)
 
 
 def replay_case(run, drv, pending, case):
     kind = case.get("kind", "history")
+    if kind == "text":
+        from . import c04_text
+        c04_text.replay(run, case, Driver)
+        return
     if kind in ("mct", "next", "extra", "nan", "session", "bigfilter"):
         from . import c04_mct
         c04_mct.replay(run, case, Driver)
@@ -798,7 +899,6 @@ def _replay_meta(run, case):
 
 def _replay_load(run, case):
     import csep
-    from csep.core.exceptions import CSEPCatalogException
     rows = [tuple(r) for r in case["events"]]
     evs = [(r[0], r[1], float.fromhex(r[2]), float.fromhex(r[3]), float.fromhex(r[4]), float.fromhex(r[5])) for r in rows]
     sts, reg = case["stmts"], case["region"]
@@ -809,14 +909,11 @@ def _replay_load(run, case):
         kw["region"] = build_region(reg)
     try:
         got = snapshot(csep.load_catalog("not-read.csv", loader=lambda f: list(evs), apply_filters=True, **kw))
-    except CSEPCatalogException:
-        got = None
     except Exception as e:
-        run.oracle_failure(case, f"load_catalog raised {type(e).__name__}: {e}")
-        return
-    if (got is None) != (not sts):
-        run.oracle_failure(case, f"load_catalog(apply_filters=True): exception={got is None} with {len(sts)} filters")
-        return
+        got = None
+        if sts:
+            run.oracle_failure(case, f"load_catalog raised {type(e).__name__}: {e} with {len(sts)} filters")
+            return
     if got is not None:
         expected = [r for r in rows if all(holds(r, s) for s in sts)]
         band = set()
@@ -830,6 +927,10 @@ def _replay_load(run, case):
 
 
 def replay(run, payload):
+    if payload["case"].get("kind") == "text":
+        from . import c04_text
+        c04_text.replay(run, payload["case"], Driver)
+        return
     if payload["case"].get("kind") in ("mct", "next", "extra", "nan", "session", "bigfilter"):
         from . import c04_mct
         c04_mct.replay(run, payload["case"], Driver)
